@@ -64,10 +64,29 @@ pub mod prost_types {
 pub use prost_types::Any;
 // A-std-time-03: std::time::Duration is a value (secs, nanos) with nanos < 10^9; ZERO is (0, 0)
 pub mod time {
+    use vstd::prelude::*;
     #[derive(Clone, Copy)]
     pub struct Duration { pub secs: u64, pub nanos: u32 }
     impl Duration {
         pub const ZERO: Duration = Duration { secs: 0, nanos: 0 };
+        pub const fn new(secs: u64, nanos: u32) -> (r: Duration) requires nanos < 1_000_000_000 ensures r.secs == secs && r.nanos == nanos { Duration { secs, nanos } }
+    }
+    // ordering: by seconds, then nanos
+    pub open spec fn dur_le(a: Duration, b: Duration) -> bool { a.secs < b.secs || (a.secs == b.secs && a.nanos <= b.nanos) }
+    impl vstd::std_specs::cmp::PartialEqSpecImpl for Duration {
+        open spec fn obeys_eq_spec() -> bool { true }
+        open spec fn eq_spec(&self, other: &Duration) -> bool { self.secs == other.secs && self.nanos == other.nanos }
+    }
+    impl PartialEq for Duration { fn eq(&self, other: &Duration) -> (r: bool) { self.secs == other.secs && self.nanos == other.nanos } }
+    impl vstd::std_specs::cmp::PartialOrdSpecImpl for Duration {
+        open spec fn obeys_partial_cmp_spec() -> bool { true }
+        open spec fn partial_cmp_spec(&self, other: &Duration) -> Option<core::cmp::Ordering> {
+            if self.secs == other.secs && self.nanos == other.nanos { Some(core::cmp::Ordering::Equal) } else if dur_le(*self, *other) { Some(core::cmp::Ordering::Less) } else { Some(core::cmp::Ordering::Greater) }
+        }
+    }
+    impl PartialOrd for Duration {
+        #[verifier::external_body]
+        fn partial_cmp(&self, other: &Duration) -> (r: Option<core::cmp::Ordering>) { unimplemented!() }
     }
 }
 pub open spec fn dur_ok(d: time::Duration) -> bool { d.nanos < 1_000_000_000 }
@@ -184,6 +203,7 @@ def view_fns(k, lay):
 RANGE = r"""
 // the protobuf range of a retry delay (google.protobuf.Duration: at most 315,576,000,000 s) -- the property quantifies over
 // "durations within the protobuf range"; every other detail is in range
+pub open spec fn max_delay() -> time::Duration { time::Duration { secs: 315_576_000_000, nanos: 999_999_999 } }
 pub open spec fn in_range_retry_info(x: RetryInfo) -> bool { x.retry_delay matches Some(d) ==> dur_ok(d) && d.secs <= 315_576_000_000 }
 pub open spec fn pb_in_range_retry_info(p: pb::RetryInfo) -> bool { p.retry_delay matches Some(d) ==> pb_dur_ok(d) }
 """
@@ -498,6 +518,8 @@ def build():
         u.item(F, 'struct', k)
         u._emit('impl %s {' % k)
         u.item(F, 'const', 'TYPE_URL')
+        if k == 'RetryInfo':
+            u.exec_const(F, 'MAX_RETRY_DELAY', ensures=[Clause('M1_the_largest_delay_is_the_protobuf_maximum', 'Self::MAX_RETRY_DELAY.secs == 315_576_000_000 && Self::MAX_RETRY_DELAY.nanos == 999_999_999')])
         u._emit('}')
     u.item(VEC, 'enum', 'ErrorDetail')
     u.item(ED, 'struct', 'ErrorDetails')
@@ -568,6 +590,12 @@ def build():
                 u._emit(hdr + ' {'); u._open_header = hdr + ' {'
                 u.fn(F, 'from', within=hdr, display='%s::from<%s>' % (b, a), ensures=ens)
                 u.close('}')
+        if k == 'RetryInfo':
+            u._emit('impl RetryInfo {'); u._open_header = 'impl RetryInfo {'
+            u.fn(F, 'new', within='impl RetryInfo', ensures=[
+                Clause('N1_a_new_retry_info_is_within_the_protobuf_range', '(retry_delay matches Some(d) ==> dur_ok(d)) ==> in_range_retry_info(r)'),
+                Clause('N2_a_delay_within_the_range_is_kept', '(retry_delay is None ==> r.retry_delay is None) && (retry_delay matches Some(d) ==> (time::dur_le(d, max_delay()) ==> r.retry_delay == Some(d)))')])
+            u.close('}')
         # is_empty ("carries nothing") is not part of C20; it is put under contract (obligations tagged `aux`, never reported for
         # C20) so that an edit of /repo that calls it stays decidable
         def empt(fld, kind):
